@@ -1118,7 +1118,7 @@ for _f in ("refuse", "ignore"):
 
 
 # ------------------------------------------------------------------ C06: STREAM frames are checked against, and charged to, the connection-level receive limit
-def _ss(c, n):
+def _sstate(c, n):
     return "*_1.%d" % c.field("connection/streams/state.rs", "StreamsState", n)
 
 
@@ -1133,7 +1133,7 @@ def recvd_post(c, p):
     i = ing[0]
     x = calls[i]
     snap = _Snap(st, x[3])
-    DR, LM = _ss(c, "data_recvd"), _ss(c, "local_max_data")
+    DR, LM = _sstate(c, "data_recvd"), _sstate(c, "local_max_data")
     a = x[1]
     if a[2][0] != "val" or a[3][0] != "val" or a[4][0] != "val":
         return "false"
@@ -1173,8 +1173,8 @@ def rr_post(c, p):
     a = x[1]
     if a[1] != ("agg", "_2.1") or a[2] != ("agg", "_2.2") or a[3][0] != "val" or a[4][0] != "val":
         return "false"                       # (error code, final offset) of THIS frame
-    conj = [eq(a[3][1].t, c.ex.read_key(snap, _ss(c, "data_recvd"), BV64).t),
-            eq(a[4][1].t, c.ex.read_key(snap, _ss(c, "local_max_data"), BV64).t)]
+    conj = [eq(a[3][1].t, c.ex.read_key(snap, _sstate(c, "data_recvd"), BV64).t),
+            eq(a[4][1].t, c.ex.read_key(snap, _sstate(c, "local_max_data"), BV64).t)]
     ok = eq(c.ex.read_key(st, x[2] + "#discr", I64).t, bv(0))
     conj.append(imp(not_(ok), eq(c.ex.read_key(st, "_0#discr", I64).t, bv(1))))
     cr = [y for y in calls if re.search(r"add_read_credits$", y[0])]
